@@ -141,6 +141,17 @@ def cases(ctx):
                         "src": f"*={org:#08x}\n@=0x7e2000\n{mn} 0x7e2010\n",
                         "spec": {"t": "branch", "high": rom == "high", "p": 0x7E2000, "t_addr": 0x7E2010, "op": op, "skip": 0,
                                  "reject": True}})
+    # a branch in plain code behind a later *=, after a block that was relocated with @= (to ROM or RAM): the relocation
+    # is over, the run address is the *= address again
+    for rom in ("low", "high"):
+        bank = 0x01 if rom == "low" else 0x41
+        a, c = (bank << 16) | 0x8000, (bank << 16) | 0x9000
+        for b in ((bank << 16) | 0x8020, ((bank + 1) << 16) | 0x8000, 0x7E2000, (bank << 16) | 0xF000):
+            for mn, op in br:
+                out.append({"kind": "branch:after-reloc", "rom": rom,
+                            "src": f"*={a:#08x}\nnop\n@={b:#08x}\nzz_r:\nnop\nnop\n*={c:#08x}\nzz_tgt:\ndex\nnop\n{mn} zz_tgt\nnop\n",
+                            "spec": {"t": "branch", "high": rom == "high", "p": c + 2, "t_addr": c, "op": op, "skip": 2,
+                                     "reject": False}})
     # far targets whose distance is small only modulo the bank window / the bank / 64 KiB: out of reach, never wrapped
     for rom in ("low", "high"):
         bank = 0x01 if rom == "low" else 0x41
